@@ -84,9 +84,22 @@ def conv_case(ctx, rng, lines, pend):
     want = Grow.t() @ P1
     try:
         got = hlp.get_grad()
-        patches = hlp._extract_patches(x.detach().clone())
-        A = hlp.get_a_factor(x.detach().clone())
-        G = hlp.get_g_factor(gout.clone())
+        xc = x.detach().clone()
+        patches = hlp._extract_patches(xc)
+        if tuple(xc.shape) != tuple(x.shape) or xc.stride() != x.detach().stride() or not torch.equal(xc, x.detach()):
+            ctx.fail('_extract_patches changed the tensor it was given (shape/stride/values of the caller\'s input)', case, 'input-mutated')
+        # ... and the same tensor can be used again: patch extraction is a function of its argument
+        patches2 = hlp._extract_patches(xc)
+        if patches2.shape != patches.shape or not torch.equal(patches2, patches):
+            ctx.fail('_extract_patches gives a different result when called again on the same tensor', case, 'input-mutated')
+        xa = x.detach().clone()
+        A = hlp.get_a_factor(xa)
+        if tuple(xa.shape) != tuple(x.shape) or not torch.equal(xa, x.detach()):
+            ctx.fail('get_a_factor changed the tensor it was given', case, 'input-mutated')
+        gc = gout.clone()
+        G = hlp.get_g_factor(gc)
+        if tuple(gc.shape) != tuple(gout.shape) or not torch.equal(gc, gout):
+            ctx.fail('get_g_factor changed the tensor it was given', case, 'input-mutated')
     except Exception as e:  # noqa: BLE001
         ctx.fail(f'helper raised {type(e).__name__}: {e}', case, 'raised')
         return
